@@ -476,6 +476,12 @@ func (c *VCtx) atomicHook(fr *Frame, st *State, l *Loc, pre bool) {
 			// section is race-free by itself; nothing functional is claimed about the section
 			return
 		}
+		if len(st.held) > 0 && c.contract != nil && c.contract.Opts["atomic-in-cs"] != "" {
+			// "opt atomic-in-cs = <field>": the function operates on an atomic latch inside a critical section; no
+			// clause of the package mentions that cell, so the operation is not an observation point of the proof
+			c.eng.assume("atomic cell " + c.contract.Opts["atomic-in-cs"] + " is a latch no contract clause mentions: operations on it inside a critical section are not observation points")
+			return
+		}
 		if len(st.held) > 0 {
 			c.staticObl("atomic.incs", "atomic operation inside a critical section is on a cell local to this call", false,
 				"atomic operation on a shared cell while holding "+heldNames(st)+" (critical sections could not be treated as atomic)")
